@@ -58,6 +58,8 @@ def main():
             mod.run(chk)
     except SystemExit:
         raise
+    except common.EnoughFound:
+        chk.extra["stopped_early"] = "%d failing inputs found" % chk.n_found()
     except Exception as e:
         chk.violation("harness error: " + common.exc_info(e),
                       {"traceback": traceback.format_exc()}, found_input=False)
